@@ -209,6 +209,29 @@ pub fn record(c: &OCase, case: i64) -> Value {
         (Some(ops), Some(ratio)) => {
             v["panic"] = json!(false);
             v["ops"] = shifted_ops_json(ops, so, sn);
+            // the same ops read through the public accessors (C11 observes the ops through them)
+            let tagn = |t: similar::DiffTag| match t {
+                similar::DiffTag::Equal => 0,
+                similar::DiffTag::Delete => 1,
+                similar::DiffTag::Insert => 2,
+                similar::DiffTag::Replace => 3,
+            };
+            v["acc"] = Value::Array(
+                ops.iter()
+                    .map(|op| {
+                        let (t, or, nr) = op.as_tag_tuple();
+                        json!([tagn(t), or.start + so, or.end - or.start, nr.start + sn, nr.end - nr.start])
+                    })
+                    .collect(),
+            );
+            v["acc2"] = Value::Array(
+                ops.iter()
+                    .map(|op| {
+                        let (or, nr) = (op.old_range(), op.new_range());
+                        json!([tagn(op.tag()), or.start + so, or.end - or.start, nr.start + sn, nr.end - nr.start])
+                    })
+                    .collect(),
+            );
             v["cc"] = json!(match &unc {
                 Some(u) => shifted_ops_json(u, 0, 0) != v["ops"],
                 None => false,
